@@ -60,6 +60,20 @@ Definition error_line (g : globals) (e : econf_err) : str :=
 
 Definition minus_one : N := 255.          (* main returns -1 *)
 
+(* --delimiters as main() translates it before it reaches the library: the word "spaces" stands for the six blank
+   characters; otherwise the FIRST occurrence of each of \t \f \n \r \v (in this order, each applied to the result of
+   the one before) is replaced by the character it names (replace_str; its 1024-byte buffer is finding F21 and not
+   modelled: the arguments of the model are shorter) *)
+Fixpoint replace_first (orig rep s : str) : str :=
+  match s with
+  | [] => []
+  | c :: r => if is_prefix orig s then rep ++ skipn (length orig) s else c :: replace_first orig rep r
+  end.
+Definition cli_delims (d : str) : str :=
+  if str_eqb d (bs "spaces") then [32; 9; 12; 10; 13; 11]
+  else replace_first [92; 118] [11] (replace_first [92; 114] [13] (replace_first [92; 110] [10]
+         (replace_first [92; 102] [12] (replace_first [92; 116] [9] d)))).
+
 (* show (with_listing = true) and syntax (false) *)
 Definition tool_read (t : tree) (arg dl cm : str) (with_listing : bool) : tool_out :=
   let '(r, base, sfx) :=
